@@ -263,6 +263,23 @@ LONE_WRAPS = ['(%s)', '((%s))', '( %s )', 'case when a\nthen (%s)\nelse 2\nend',
               'if a then\n%s\nend if', 'for i in (%s) loop\nx\nend loop', "x\nwhere\n(%s)", '(%s)\nas\ny', '(%s)::int', 'a\n:=\n(%s)']
 
 
+def clause_tail_cases(ctx):
+    """every keyword that can directly follow a WHERE / HAVING / ON condition or a list — also the ones that are no line-break keywords of the reindent
+    filter (RETURNING, INTO, WINDOW, FETCH, FOR UPDATE, OFFSET, ON CONFLICT …): a filter that trims the end of a clause must not glue it to its successor"""
+    out = []
+    tails = ['returning id', 'returning *', 'into x', 'into outfile f', 'window w as (order by a)', 'fetch first 1 rows only', 'for update', 'offset 5', 'on conflict do nothing',
+             'limit 1', 'order by 1', 'group by a', 'having b', 'union select 2', 'except select 3', 'with check option', 'qualify r = 1', 'connect by prior a = b', 'start with a']
+    heads = ['update t set a = 1 where x = 1', 'delete from t where y', 'select a from t where c', 'select a from t where c in (1, 2)', "select a from t where c = 'x'",
+             'select a, b from t', 'select a from t join u on t.i = u.i', 'insert into t select a from u where b = 1', 'select a from t having c > 1']
+    for h in heads:
+        for t in tails:
+            for text in (h + ' ' + t, h + '\n' + t, '(' + h + ' ' + t + ')'):
+                for o in OPTSETS:
+                    out.append((text, o))
+    ctx.count('clause tails', len(out))
+    return out
+
+
 def comment_chunk_cases(ctx):
     """chunks of a script that hold nothing but comments (a trailing comment line, a comment block between two statements, a header): what a filter does
     "between statements" must treat them like any other chunk — the formatted script has the same significant tokens AND the same number of statements"""
@@ -303,7 +320,7 @@ def run(ctx):
         for k in opts:
             ctx.count('opt:' + k)
         oracle(ctx, text, opts)
-    sweeps = multiline_cases(ctx) + neighbour_cases(ctx) + gap_cases(ctx) + separator_cases(ctx) + call_cases(ctx) + lone_group_cases(ctx) + comment_chunk_cases(ctx)
+    sweeps = multiline_cases(ctx) + neighbour_cases(ctx) + gap_cases(ctx) + separator_cases(ctx) + call_cases(ctx) + lone_group_cases(ctx) + comment_chunk_cases(ctx) + clause_tail_cases(ctx)
     # statements that are large in one dimension (the property has no size bound)
     sweeps += [(t, ctx.rng.choice(OPTSETS)) for t in gen.scale_texts(ctx.rng) if not (ctx.quick() and len(t) > 12000)]
     for text, opts in sweeps:
